@@ -190,12 +190,56 @@ fn op_gen(c: &Case, out: &mut Out) {
     }
 }
 
+/// standalone struct from the field list of variant `variant` (or of the struct itself when absent) of type `id`
+fn op_standalone(c: &Case, out: &mut Out) {
+    use scale_typegen::typegen::ir::type_ir::CompositeIR;
+    use scale_typegen::typegen::type_params::TypeParameters;
+    let reg = registry(c);
+    let Some(s) = settings(c, out) else { return };
+    let id: u32 = get(c, "id").unwrap().parse().unwrap();
+    let g = TypeGenerator::new(&reg, &s);
+    let ty = reg.resolve(id).expect("id");
+    let (name, fields, docs) = match (&ty.type_def, get(c, "variant")) {
+        (scale_info::TypeDef::Variant(v), Some(vi)) => {
+            let v = &v.variants[vi.parse::<usize>().unwrap()];
+            (v.name.clone(), v.fields.clone(), v.docs.clone())
+        }
+        (scale_info::TypeDef::Composite(cdef), _) => (
+            ty.path.segments.last().cloned().unwrap_or("Anon".into()),
+            cdef.fields.clone(),
+            ty.docs.clone(),
+        ),
+        _ => panic!("standalone: not a struct/variant"),
+    };
+    let mut tp = TypeParameters::from_scale_info(&[]);
+    match g.create_composite_ir_kind(&fields, &mut tp) {
+        Ok(kind) => {
+            let ident: proc_macro2::Ident = syn::parse_str(&name).expect("ident");
+            let comp = CompositeIR::new(ident, kind, g.docs_from_scale_info(&docs));
+            let ir = g.upcast_composite(&comp);
+            out.put("result", "Ok");
+            out.put("tokens", ir.to_token_stream(&s).to_string());
+        }
+        Err(e) => {
+            let (v, p) = err_parts(&e);
+            out.put("result", "Err");
+            out.put("err_variant", v);
+            out.put("err_payload", p);
+        }
+    }
+    match g.generate_types_mod() {
+        Ok(m) => out.put("module", m.to_token_stream(&s).to_string()),
+        Err(e) => out.put("module_err", err_parts(&e).0),
+    }
+}
+
 fn run_case(c: &Case, out: &mut Out) {
     match get(c, "op").unwrap_or("") {
         "fmt" => op_fmt(c, out),
         "describe" => op_describe(c, out),
         "dedup" => op_dedup(c, out),
         "gen" => op_gen(c, out),
+        "standalone" => op_standalone(c, out),
         "corpus" => {
             use parity_scale_codec::Encode;
             for (name, reg) in corpus::all() {
